@@ -1,14 +1,52 @@
 /-
   SpecKitV.Drv.ExtNumpyKernels — driver operations of the generated region `NumpyKernels` (extension point: `dispatch op` returns
   `some handler` for the operations this file serves).  Mathlib-free.
+
+  `npkernel <name> x1 [x2] starts L w omega [Q] chunk` → the 5-tuple of the TRANSLATED NumPy fallback kernel `Gen.<name>` executed in
+  Float; the uninitialised memory of every `np.empty` is NaN, so an entry the chunk loop failed to write would poison the result.
+  `npgather x starts L` → `rows cols | entries…` of the translated `_gather_segments`.
 -/
 import SpecKitV.Drv.Base
+import SpecKitV.Gen.NumpyKernels
 
 namespace Drv.ExtNumpyKernels
 open Drv
 
+def opNpKernel : M String := do
+  let name ← tok
+  let cross := (name.splitOn "csd").length > 1
+  let poly := (name.splitOn "poly").length > 1
+  let x1 := arrF (← fltArr)
+  let x2 ← if cross then (do let a ← fltArr; pure (arrF a)) else pure x1
+  let starts := arrN (← natArr)
+  let L ← nat
+  let w := arrF (← fltArr)
+  let omega ← flt
+  let Q ← if poly then arr2 else pure ⟨0, 0, fun _ _ => nan⟩
+  let chunk ← nat
+  let garbage : Nat → Nat → Float := fun _ _ => nan
+  let r ← match name with
+    | "_stats_win_only_auto_np" => pure (Gen._stats_win_only_auto_np x1 starts L w omega chunk garbage)
+    | "_stats_win_only_csd_np" => pure (Gen._stats_win_only_csd_np x1 x2 starts L w omega chunk garbage)
+    | "_stats_detrend0_auto_np" => pure (Gen._stats_detrend0_auto_np x1 starts L w omega chunk garbage)
+    | "_stats_detrend0_csd_np" => pure (Gen._stats_detrend0_csd_np x1 x2 starts L w omega chunk garbage)
+    | "_stats_poly_auto_np" => pure (Gen._stats_poly_auto_np x1 starts L w omega Q chunk garbage)
+    | "_stats_poly_csd_np" => pure (Gen._stats_poly_csd_np x1 x2 starts L w omega Q chunk garbage)
+    | _ => throw s!"npkernel:{name}"
+  return fmt5 r
+
+def opNpGather : M String := do
+  let x := arrF (← fltArr)
+  let starts := arrN (← natArr)
+  let L ← nat
+  let g := Gen._gather_segments x starts L
+  let cells := (List.range g.n).flatMap (fun i => (List.range g.m).map (fun j => g.get i j))
+  return s!"{g.n} {g.m} | " ++ joinF cells
+
 def dispatch (op : String) : Option (M String) :=
   match op with
+  | "npkernel" => some opNpKernel
+  | "npgather" => some opNpGather
   | _ => none
 
 end Drv.ExtNumpyKernels
